@@ -112,7 +112,10 @@ def Injective (m : List (Nat × Nat)) : Prop :=
 def HeapOK (h : Heap) : Bool := h.all (okCell h)
 
 /-- Locality of the overlay step (heap-level effect of overlayStruct on the copied base and the copied
-source value) — an ASSUMPTION about overlay.go, sampled by the correspondence harness's alias oracle:
+source value) — the hypothesis of the abstract C02 theorems.  The real overlay.go is modelled in
+Model/HeapOverlay.lean and proved to satisfy these laws on well-formed heaps
+(`overlayLocalWF_ovReal`, Lemmas/HeapOverlay.lean); the `_real` theorems of Props/C02.lean need no
+such hypothesis:
 when everything the base and the overlay value reach (through exported fields) lies at or above
 `mark`, the step leaves every cell below `mark` alone, never shrinks the heap, keeps it
 well-formed, and its result again reaches only cells at or above `mark`. -/
